@@ -7,10 +7,13 @@ M_NOTE = ('Trusted base: rustc 1.97.0-nightly front end + MIR inliner/optimiser,
           'Scalars are interpreted over the real field: IEEE rounding, overflow and NaN are outside the claim. ')
 K_NOTE = 'Trusted base: Kani 0.68 MIR->goto translation, CBMC 6.11 + cadical. Bit-precise over the compiled representation; bounds are the unwind depth and the enumerated type tables. '
 CHECKS = {
+ 'C01': dict(engine='mirsmt', section='3 C01', text='Bounded symbolic execution of the real MIR of Matrix2/3/4 (constructors, Index, Mul<Vector>, Mul<Matrix>, row/transpose/diagonal/trace, embeddings, identity/from_value/from_diagonal, from_scale/from_translation through Transform, element-wise operators) with every entry a solver variable; each result component is compared with an explicit index-sum oracle written in the harness. unsat covers all matrices and vectors over the reals at once, for all by-value/by-reference forms.',
+             note=M_NOTE + 'Bounds: dimensions 2-4 (all that exist); loops are the concrete index loops of the oracle.', technique='symbolic execution of rustc MIR + SMT (QF_NRA, z3 portfolio)'),
  'C02': dict(engine='mirsmt', section='3 C02', text='Bounded symbolic execution of the real MIR (Matrix2/3/4 at the abstract scalar) with every matrix entry a solver variable: determinant = Leibniz expansion, invert() None exactly on det = 0 and otherwise a two-sided inverse, transpose laws, swap_* with symbolic indices forked over all in-range values. unsat covers every real matrix including exactly singular and nearly singular ones; a counterexample is replayed on the native build before it is reported.',
              note=M_NOTE + 'Bounds: dimension 2-4 (all that exist), executor fuel 400000 statements / 512 forks.', technique='symbolic execution of rustc MIR + SMT (QF_NRA, z3 portfolio)'),
 }
 NOT_APPLICABLE = []
+ALL = ['C%02d' % i for i in range(1, 21)]
 def main():
     checks = []
     for pid in sorted(CHECKS):
@@ -26,6 +29,10 @@ def main():
             'level_note': c['note'],
             'technique': c['technique'],
         })
+    na = list(NOT_APPLICABLE)
+    for pid in ALL:
+        if pid not in CHECKS and not any(x['property_id'] == pid for x in na):
+            na.append({'property_id': pid, 'reason': 'check not yet built in this round (planned, see DESIGN.md section 3); not a statement about applicability of the technique'})
     m = {
         'version': 1,
         'setup_cmd': './setup.sh',
@@ -38,7 +45,7 @@ def main():
              'kind_free_text': 'Kani 0.68 / CBMC 6.11 proof harnesses over kani::any() components, generated tables'},
         ],
         'checks': checks,
-        'not_applicable': NOT_APPLICABLE,
+        'not_applicable': na,
         'notes': 'Exit codes: 0 held, 1 + VIOLATION line (replayed natively), 2 inconclusive (solver limit / non-reproducing model / build failure). Known findings: known-findings.txt.',
     }
     json.dump(m, open(os.path.join(V, 'MANIFEST.json'), 'w'), indent=1)
